@@ -74,6 +74,24 @@ void do_layout(Toks &tk, std::ostream &os)
             os << id << " @shape_matrix ";
             print_shape(os, m);
             os << "\n";
+            // containers built FROM a vector of values (matrix; diagonal and symmetric tensors): the shape they report
+            os << id << " @shape_from_vector ";
+            try
+            {
+                tensor::Matrix<double> mv(R, C, std::vector<double>(R * C, 1.0));
+                print_shape(os, mv);
+                tensor::DiagonalTensor<double> dv(R, T, std::vector<double>(R * T, 1.0));
+                os << " | ";
+                print_shape(os, dv);
+                tensor::SymmetricTensor<double> sv(R, T, std::vector<double>(R * R * T, 1.0));
+                os << " | ";
+                print_shape(os, sv);
+            }
+            catch (const std::exception &)
+            {
+                os << " threw";
+            }
+            os << "\n";
             // the two-index accessors of the transposed view of a C x R matrix (plain and const): (i,j) is the matrix's (j,i)
             tensor::Matrix<double> mm(C, R);
             tensor::Transpose<tensor::Matrix<double>> mT(mm);
